@@ -198,6 +198,9 @@ func genHistory(r *common.Rand, nops int) histCase {
 		addrs = append(addrs, h, "https://"+h+"/", "http://"+h+"/v1/")
 	}
 	hc := histCase{Kind: "H", SubDir: r.Intn(3) == 0}
+	if hc.SubDir {
+		hc.Depth = 1 + r.Intn(3)
+	}
 	if r.Intn(40) == 0 {
 		// valid JSON documents that are not objects
 		t := common.Pick(r, []string{"null", "null\n", " null", "[]", "0", "\"s\"", "true", "[{}]"})
@@ -206,7 +209,13 @@ func genHistory(r *common.Rand, nops int) histCase {
 	} else if r.Intn(7) != 0 {
 		t := genDoc(r, addrs).text(r)
 		hc.Init = &t
-		hc.Mode = common.Pick(r, []uint32{0o644, 0o600, 0o640, 0o666})
+		hc.Mode = common.Pick(r, []uint32{0o644, 0o600, 0o640, 0o666, 0o664})
+	}
+	if hc.Init != nil && r.Intn(6) == 0 {
+		hc.Symlink = true
+	}
+	if r.Intn(12) == 0 {
+		hc.DisablePut = true
 	}
 	for i := 0; i < nops; i++ {
 		a := common.Pick(r, addrs)
@@ -245,6 +254,10 @@ func main() {
 		childMain()
 		return
 	}
+	if os.Getenv("C18_CONCCHILD") != "" {
+		concChildMain()
+		return
+	}
 	run = common.Start("C18")
 	defer run.Finish()
 	run.Rule = "H: generated docker config documents (unknown nested keys, big numbers, legacy/malformed/unknown-field auth entries, " +
@@ -264,6 +277,9 @@ func main() {
 	for _, hc := range fixedHistories() {
 		runHistory(hc)
 	}
+	legacyStream(r, run.Scale(60, 3000))
+	modeStream(r, run.Scale(1, 40))
+	plainStream(r, run.Scale(60, 5000))
 	n := run.Scale(600, 60000)
 	for i := 0; i < n; i++ {
 		runHistory(genHistory(r, 10))
@@ -285,6 +301,9 @@ func replayCase(c map[string]string) {
 		}
 		fmt.Sscanf(c["mode"], "%d", &hc.Mode)
 		hc.SubDir = c["subdir"] == "true"
+		fmt.Sscanf(c["depth"], "%d", &hc.Depth)
+		hc.Symlink = c["symlink"] == "true"
+		hc.DisablePut = c["disable_put"] == "true"
 		if err := json.Unmarshal([]byte(c["ops"]), &hc.Ops); err != nil {
 			fmt.Fprintln(os.Stderr, "bad replay ops:", err)
 			os.Exit(2)
